@@ -612,12 +612,18 @@ impl<'r, 'c, 's, W: Write> DatumSerializer<'r, 'c, 's, W> {
 				};
 				self.state.writer.write_all(buf).map_err(SerError::io)
 			}
-			SchemaNode::Enum(_) => {
+			SchemaNode::Enum(enum_) => {
+				let discriminant: i64 = num.try_into().map_err(|_| {
+					SerError::new("Number does not fit i64 for encoding as Enum discriminant")
+				})?;
+				if usize::try_from(discriminant).map_or(true, |d| d >= enum_.symbols.len()) {
+					return Err(SerError::new(
+						"Number is not a valid discriminant for the Enum it is serialized as",
+					));
+				}
 				self.state
 					.writer
-					.write_varint::<i64>(num.try_into().map_err(|_| {
-						SerError::new("Number does not fit i64 for encoding as Enum discriminant")
-					})?)
+					.write_varint::<i64>(discriminant)
 					.map_err(SerError::io)?;
 				Ok(())
 			}
